@@ -872,6 +872,8 @@ def _run_batched(ctx, it, size=1500):
             try:
                 for sp in (c["cols"] if c["kind"] == "schema" else [c["col"]]):
                     construct(sp)
+                if c["kind"] == "flat2":
+                    construct(dict(c["col"], **c["then"]))  # the donor of the assigned attributes
             except Exception as e:
                 # the original cannot be constructed (e.g. a default the type's cast refuses): not a C16 input
                 ctx.hit("skipped:not-constructible:" + type(e).__name__)
@@ -943,6 +945,8 @@ def _constructible(c, ctx):
     try:
         for sp in (c["cols"] if c["kind"] == "schema" else [c["col"]]):
             construct(sp)
+        if c["kind"] == "flat2":
+            construct(dict(c["col"], **c["then"]))  # the donor of the assigned attributes
         return True
     except Exception as e:
         ctx.hit("skipped:not-constructible:" + type(e).__name__)
